@@ -61,9 +61,27 @@ def strategy(tier):
         st.tuples(st.just("pid_exists"), st.integers(0, len(PID_EXISTS_ARGS) - 1)),
         st.tuples(st.just("pids")),
     ]
+    # multi-op motifs spliced into the independent draws (each step matters)
+    pi = st.integers(0, 5)
+    ai = st.integers(2, len(ATTRS) - 1)
+    motifs = [
+        # a cached process dies while a pass (with attrs) is under way, its
+        # PID is taken again before the next pass
+        st.tuples(pi, ai).map(lambda t: [("pass", 0), ("iter_new", t[1]), ("exit", t[0]), ("iter_finish", 11),
+                                         ("recycle", t[0], False), ("pass", 0), ("pass", 0)]),
+        # the same with the death after a few items were consumed
+        st.tuples(pi, ai).map(lambda t: [("pass", 0), ("iter_new", t[1]), ("iter_next", 11, 1), ("exit", t[0]),
+                                         ("iter_finish", 11), ("spawn", t[0], False, False), ("pass", 0)]),
+        # gone noticed by is_running() while the PID is free, then recycled
+        pi.map(lambda n: [("pass", 0), ("exit", n), ("is_running", 0), ("is_running", 1), ("is_running", 2),
+                          ("recycle", n, False), ("pass", 0), ("pass", 0)]),
+    ]
+    one = st.one_of(*ops).map(lambda o: [o])
+    piece = st.one_of(one, one, one, one, one, one, one, one, one, st.one_of(*motifs))
     return st.fixed_dictionaries(dict(
         setup=st.integers(0, 63),
-        ops=st.lists(st.one_of(*ops), min_size=4, max_size=nops),
+        ops=st.lists(piece, min_size=4, max_size=nops).map(
+            lambda ps: [op for p_ in ps for op in p_][:nops + 8]),
     ))
 
 
